@@ -129,16 +129,22 @@ impl SimSource {
         }
     }
 
-    fn fault_at(&self, call: usize) -> Option<(ErrorKind, io::Error)> {
+    fn fault_at(&self, call: usize, is_seek: bool) -> Option<(ErrorKind, io::Error)> {
         self.faults.iter().find(|f| f.call == call).map(|f| {
-            let e = build_fault(f, call);
+            let e = build_fault(f, call, is_seek);
             (e.kind(), e)
         })
     }
 }
 
 /// The io::Error a `Fault` stands for (the kind that must come back is always the outer one).
-pub fn build_fault(f: &Fault, call: usize) -> io::Error {
+pub fn build_fault(f: &Fault, call: usize, is_seek: bool) -> io::Error {
+    // "SeekInterrupted": a *seek* of the source that fails with kind Interrupted ("any other error
+    // raised during a seek": only interrupted reads are retried); if the call turns out to be a
+    // read, an ordinary error is injected instead
+    if f.kind == SEEK_INTERRUPTED {
+        return io::Error::from(if is_seek { ErrorKind::Interrupted } else { ErrorKind::Other });
+    }
     let kind = kind_from_name(&f.kind);
     if f.payload.is_empty() {
         io::Error::from(kind)
@@ -164,8 +170,10 @@ pub fn build_fault(f: &Fault, call: usize) -> io::Error {
 
 /// what the reader has to hand back for this fault (see `scn::io_label`)
 pub fn fault_label(f: &Fault) -> String {
-    crate::scn::io_label(&build_fault(f, f.call))
+    crate::scn::io_label(&build_fault(f, f.call, false))
 }
+
+pub const SEEK_INTERRUPTED: &str = "SeekInterrupted";
 
 impl Read for SimSource {
     fn read(&mut self, buf: &mut [u8]) -> io::Result<usize> {
@@ -179,7 +187,7 @@ impl Read for SimSource {
             log.op.first_req = Some(buf.len());
         }
         log.op.last_req = Some(buf.len());
-        if let Some((kind, err)) = self.fault_at(call) {
+        if let Some((kind, err)) = self.fault_at(call, false) {
             log.op.faults.push(crate::scn::io_label(&err));
             log.total_faults += 1;
             log.ev(3, call as u64, kind as u64);
@@ -264,7 +272,7 @@ impl Seek for SimSource {
         log.calls += 1;
         log.op.seeks += 1;
         log.total_seeks += 1;
-        if let Some((kind, err)) = self.fault_at(call) {
+        if let Some((kind, err)) = self.fault_at(call, true) {
             log.op.faults.push(crate::scn::io_label(&err));
             log.total_faults += 1;
             log.ev(5, call as u64, kind as u64);
